@@ -24,6 +24,7 @@ import (
 	"sync"
 
 	"github.com/chrislusf/seaweedfs/weed/storage"
+	"github.com/chrislusf/seaweedfs/weed/storage/idx"
 	"github.com/chrislusf/seaweedfs/weed/storage/needle"
 	"github.com/chrislusf/seaweedfs/weed/storage/types"
 	"github.com/chrislusf/seaweedfs/weed/util"
@@ -185,18 +186,18 @@ func readTok(s *storage.Store, id uint64, cookie uint32) (res string) {
 	return "d" + hx.Hex(n.Data)
 }
 
-const newId = 900
+const newId = 9000000 // beyond every id a history uses
 
 var newData = []byte("after-crash")
 
 // crashPoint reopens (dat[:p], idx[:q]) twice on separate copies: once directly through storage.NewVolume under
 // recover (a panic inside the loader would otherwise kill the process from a Store goroutine), once through a Store.
-func crashPoint(dat, idx []byte, p, q int, ids []uint64, cookies map[uint64]uint32) []string {
+func crashPoint(dat, idxb []byte, p, q int, ids []uint64, cookies map[uint64]uint32) []string {
 	if p > len(dat) {
 		p = len(dat)
 	}
-	if q > len(idx) {
-		q = len(idx)
+	if q > len(idxb) {
+		q = len(idxb)
 	}
 	// A direct storage.NewVolume under recover only where the loader is known to be able to panic (index size not a
 	// multiple of the entry size); everywhere else the load happens once, inside the Store (a panic there kills the
@@ -207,7 +208,7 @@ func crashPoint(dat, idx []byte, p, q int, ids []uint64, cookies map[uint64]uint
 			dir := newDir()
 			defer os.RemoveAll(dir)
 			os.WriteFile(filepath.Join(dir, "1.dat"), dat[:p], 0644)
-			os.WriteFile(filepath.Join(dir, "1.idx"), idx[:q], 0644)
+			os.WriteFile(filepath.Join(dir, "1.idx"), idxb[:q], 0644)
 			defer func() {
 				if r := recover(); r != nil {
 					if os.Getenv("C03_SHOWPANIC") != "" {
@@ -237,7 +238,7 @@ func crashPoint(dat, idx []byte, p, q int, ids []uint64, cookies map[uint64]uint
 	defer os.RemoveAll(dir)
 	datPath, idxPath := filepath.Join(dir, "1.dat"), filepath.Join(dir, "1.idx")
 	os.WriteFile(datPath, dat[:p], 0644)
-	os.WriteFile(idxPath, idx[:q], 0644)
+	os.WriteFile(idxPath, idxb[:q], 0644)
 	s := newStore(dir)
 	if s.GetVolume(1) == nil {
 		out[0] = "failed"
@@ -326,14 +327,14 @@ func main() {
 	}
 	defer os.RemoveAll(tmpRoot)
 	tr.Comment(fmt.Sprintf("c03 seed=%d tier=%s", a.Seed, a.Tier))
-	tr.Op("config", []string{hx.I(int64(types.OffsetSize))}, nil)
+	tr.Op("config", []string{hx.I(int64(types.OffsetSize)), hx.I(int64(idx.RowsToRead))}, nil)
 	if a.Ops != "" {
 		replay(hx.ReadOps(a.Ops))
 		closeCur()
 		return
 	}
 	r := hx.NewRng(a.Seed)
-	nhist := 6
+	nhist := 5
 	if a.Thorough() {
 		nhist = 40
 	}
@@ -425,7 +426,71 @@ func main() {
 		})
 		runCrashes(pts, ids, cookies)
 	}
+	longHistory(r, a)
 	closeCur()
+}
+
+// longHistory: one history per run that is long enough to cross the index reader's batch size
+// (idx.RowsToRead entries per ReadAt in WalkIndexFile): tiny needles, crash points at exactly
+// k*RowsToRead-1, k*RowsToRead, k*RowsToRead+1 index entries (data file cut at the end of that record and 11 bytes
+// into the next one), plus the complete files.
+func longHistory(r *hx.Rng, a *hx.Args) {
+	rows := int(idx.RowsToRead)
+	if rows < 1 || rows > 8192 {
+		return
+	}
+	kmax := 1
+	if a.Thorough() {
+		kmax = 2
+	}
+	doReset()
+	nops := kmax*rows + 3 + r.Intn(6)
+	type opEnd struct{ dat, idx int64 }
+	var ends []opEnd
+	nextId := uint64(1)
+	var opId []uint64 // id written by the k-th operation (0 = a delete)
+	for k := 0; k < nops; k++ {
+		opId = append(opId, 0)
+		if k > 8 && r.Chance(1, 200) {
+			did := uint64(1 + r.Intn(int(nextId-1)))
+			doDel(did, cookieOf(did))
+		} else {
+			doPut(nextId, cookieOf(nextId), r.Bytes(1+r.Intn(2)))
+			opId[k] = nextId
+			nextId++
+		}
+		ds, is := sizes()
+		ends = append(ends, opEnd{ds, is})
+	}
+	doSnap()
+	es := int(types.NeedleMapEntrySize)
+	var pts []cp
+	var idset = map[uint64]bool{1: true, 2: true, nextId - 1: true}
+	for k := 1; k <= kmax; k++ {
+		for _, c := range []int{k*rows - 1, k * rows, k*rows + 1} {
+			for _, e := range ends {
+				if int(e.idx) == c*es {
+					pts = append(pts, cp{int(e.dat), c * es}, cp{int(e.dat) + 11, c * es})
+					break
+				}
+			}
+			// the blobs written by the operations around the cut
+			for k := c - 3; k <= c+1; k++ {
+				if k >= 0 && k < len(opId) && opId[k] != 0 {
+					idset[opId[k]] = true
+				}
+			}
+		}
+	}
+	pts = append(pts, cp{len(cur.dat), len(cur.idx)})
+	var ids []uint64
+	cookies := map[uint64]uint32{}
+	for id := range idset {
+		ids = append(ids, id)
+		cookies[id] = cookieOf(id)
+	}
+	sort.Slice(ids, func(i, j int) bool { return ids[i] < ids[j] })
+	runCrashes(pts, ids, cookies)
 }
 
 func replay(ops [][]string) {
